@@ -141,9 +141,9 @@ fn jobs_for(prop: &str, thorough: bool) -> Vec<Job> {
     let cache = |asan: bool, q: u32, th: u32| Job { engine: "cache", asan, workers: 16, cases: if t { th } else { q }, timeout_s: if t { 5400 } else { 900 } };
     match prop {
         "C01" | "C02" | "C03" | "C04" | "C05" | "C10" | "C11" | "C13" | "C15" | "C19" | "C20" =>
-            vec![cache(false, 400, 4000)],
+            vec![cache(false, 4000, 12000)],
         "C06" | "C07" | "C14" =>
-            vec![cache(false, 400, 4000), cache(true, 100, 1200)],
+            vec![cache(false, 4000, 12000), cache(true, 600, 3000)],
         "C12" => vec![
             Job { engine: "walks", asan: false, workers: 16, cases: 0, timeout_s: 1800 },
             cache(false, 300, 3000),
